@@ -63,6 +63,15 @@ def directed_histories(fx):
     H.append((100000, ["a,aabbccddeeff", "t", big, "a," + "cd" * 48, "mr,0,2", "A,1", "a," + "cd" * 49, "t", big, "a," + "ef" * 49, "mr,0,4"]))
     H.append((100000, ["a,aabbccddeeff", "t", big, "p,0,1", "mr,0,2", "X,1"]))
     H.append((100000, ["a,aabbccddeeff", "t", big, "c,6,0", "mr,0,2", "b,0,0,0", "t", big, "c,0,2", "mr,0,4"]))
+    # maybe_restore keeping a post-checkpoint HEAP atom whose bytes are a canonical small integer
+    # (only substr of a heap atom and concat of >= 2 nodes produce such atoms): the clone goes
+    # through new_atom, which stores it inline and must credit the ghost counters again
+    small_big = "a," + "01" * 1100
+    for sub in ("b,1,0,0", "b,1,0,1", "b,1,5,7", "b,1,0,4"):
+        H.append((100000, ["a,aabbccddeeff", "t", small_big, sub, "mr,0,2", "A,1", "V,1", "S,1", "N,1", "a,0102", "V,2"]))
+    H.append((100000, ["a,aabbccddeeff", "s,1", "s,2", "t", big, "c,2,1,2", "mr,0,4", "A,3", "V,3", "S,3"]))
+    H.append((100000, ["a,aabbccddeeff", "a,00", "s,128", "t", big, "c,2,1,2", "mr,0,4", "A,3", "V,3", "S,3", "t", big, "c,0,3,3", "c,4,3,3"]))
+    H.append((100000, ["a,aabbccddeeff", "s,3", "t", big, "c,1,1", "c,2,1,3", "b,4,1,2", "mr,0,5", "A,2", "V,2"]))
     # integers at every boundary through all four encoders, read back
     for v in [0, 1, 127, 128, 255, 256, 32767, 32768, (1 << 26) - 1, 1 << 26, (1 << 31) - 1, 1 << 31, (1 << 32) - 1,
               1 << 32, (1 << 63) - 1]:
